@@ -314,10 +314,10 @@ func buildFileEnum(name, pkg, goImport string, msgs []absd.Msg, withGogo, withEn
 
 // Layout tells the concretiser where the packages live.
 type Layout struct {
-	StructImport string // go import path of the struct package (e.g. ws/v0/tp)
+	StructImport  string // go import path of the struct package (e.g. ws/v0/tp)
 	SupportImport string // go import path of the support package (TimeType, validators ...)
 	DepImportBase string // go import path prefix for unrelated dependency packages
-	TargetPkg    string // target package name when cfg.Separate
+	TargetPkg     string // target package name when cfg.Separate
 }
 
 // Request builds the CodeGeneratorRequest (without parameter).
@@ -499,6 +499,21 @@ func Config(c absd.Cfg, l Layout, rng *rand.Rand) (yaml string, cli []string) {
 		add(key, b.String())
 	}
 	kvmap("name_overrides", c.NameOverrides)
+	if len(c.SchemaTypes) > 0 {
+		var b strings.Builder
+		b.WriteString("schema_types:\n")
+		sp := l.SupportImport
+		for _, i := range perm(rng, len(c.SchemaTypes)) {
+			kv := c.SchemaTypes[i]
+			ty, val, cast := sp+".OvrString", sp+".OvrStringValue", "string"
+			if kv.V == "int64" {
+				ty, val, cast = sp+".OvrInt", sp+".OvrIntValue", "int64"
+			}
+			b.WriteString("  " + yq(kv.K) + ":\n    type: " + yq(ty) + "\n    value_type: " + yq(val) +
+				"\n    cast_to_type: " + yq(cast) + "\n    cast_from_type: " + yq(cast) + "\n")
+		}
+		add("schema_types", b.String())
+	}
 	kvmap("custom_types", c.CustomTypes)
 	kvmap("suffixes", c.Suffixes)
 	kvsmap := func(key string, kvs []absd.KVs, expr func(Layout, string) string) {
